@@ -5,7 +5,13 @@
      key      : columns joined by ':' (hex with sign, "N" = null); key list comma separated, "_" = empty
      list of lists : joined by '/', "=" = no element
    Answers: batches joined by '/', a batch is "input.seq" items (decimal) joined by ',',
-   "_" = empty batch, "=" = no batch; merge answers end with ";1" (io.EOF reached) or ";0". *)
+   "_" = empty batch, "=" = no batch; merge answers end with ";1" (io.EOF reached) or ";0".
+   c09.refine <cfg> <ins> <layouts> <cuts>: the plan of MergeRowGroups with refinement (Merge/Refine.v).
+     layouts : inputs joined by '/', within an input the sorting columns joined by '|', a column = the rows
+               of each of its pages (hex nat list, "_" = empty): "2,2,2|6/2,2,2,2|8"
+     cuts    : one character '0'/'1' per input ("_" = no input)
+     answer  : pieces joined by '/', a piece = parts joined by ',', a part = "input.offset.rows" (decimal);
+               "=" = no piece. *)
 open Conv
 
 let nat_of_hex s = nat_of_int (int_of_string ("0x" ^ s))
@@ -21,7 +27,17 @@ let batches bs = if bs = [] then "=" else String.concat "/" (List.map batch bs)
 let natbatches bs =
   if bs = [] then "=" else String.concat "/" (List.map (tok_of_list (fun n -> string_of_int (int_of_nat n))) bs)
 
+let layouts tok =
+  if tok = "=" || tok = "_" then []
+  else List.map (fun inp -> List.map nats (String.split_on_char '|' inp)) (String.split_on_char '/' tok)
+let cuts tok = if tok = "_" || tok = "=" then [] else List.init (String.length tok) (fun i -> tok.[i] = '1')
+let part ((i, o), l) = Printf.sprintf "%d.%d.%d" (int_of_nat i) (int_of_nat o) (int_of_nat l)
+let pieces ps = if ps = [] then "=" else String.concat "/" (List.map (fun pc -> String.concat "," (List.map part pc)) ps)
+
 let () =
+  register "c09.refine" (function
+    | [c; ins; ls; cs] -> pieces (Model.c09_refine (cfg c) (lists keys ins) (layouts ls) (cuts cs))
+    | _ -> failwith "c09.refine args");
   register "c09.merge2" (function
     | [c; ch0; ch1; bs; in0; in1] ->
         let (outs, eof) = Model.c09_merge2 (cfg c) (nats ch0) (nats ch1) (nats bs) (keys in0) (keys in1) in
